@@ -9,6 +9,7 @@ CONSTANTS
   BgFix = FALSE
   TrackAttribution = TRUE
   AttrEscapes = 2
+  KvSafeProp = "unsupported"
   EmitEdges = FALSE
 INIT Init
 NEXT Next
